@@ -180,6 +180,47 @@ func c23Run(c *fx.Ctx) {
 		}
 	}
 
+	// sequences: the text of a chunked array must not depend on what the same encoder wrote before it — every
+	// representative value (all kinds, whole and chunked) followed by every array kind in its chunked forms
+	for _, pred := range gen.Representatives() {
+		if !c.Take() {
+			continue
+		}
+		for _, k := range gen.ArrayKinds() {
+			n := 3
+			content := k.Content(n)
+			if k.Text {
+				n = len(content)
+			}
+			sp := arrSpec{name: k.Name, at: k.AT, begin: k.Begin(), elemBytes: k.ElemBytes, stringLike: k.Text}
+			wrap := func(target []ev.E) []ev.E {
+				d := []ev.E{ev.EBD(), ev.EV(0), ev.EList()}
+				d = append(d, pred...)
+				d = append(d, target...)
+				return append(d, ev.EEnd(), ev.EED())
+			}
+			refDoc := wrap([]ev.E{k.Whole(content, n)[0]})
+			ref, _, err1 := codec.Encode(codec.CTE, refDoc, nil, true)
+			if err1 != nil {
+				continue
+			}
+			chunkedForms(sp, content, n, 2, func(id int, seq []ev.E) {
+				if k.Text && !chunksOnCharBoundaries(seq) {
+					return
+				}
+				doc := wrap(append([]ev.E{sp.begin}, seq...))
+				text, _, err2 := codec.Encode(codec.CTE, doc, nil, true)
+				c.Add("evaluations", 1)
+				c.Add("sequence_docs", 1)
+				if err2 != nil || !bytes.Equal(ref, text) {
+					c.Violation(fmt.Sprintf("text-depends-on-chunking-after-previous-value:%s:after-%s", k.Name, valueClass(pred[0])),
+						fmt.Sprintf("after %s, the %s array delivered in chunks writes %q (err=%v) but delivered whole %q: [%s]", valueClass(pred[0]), k.Name, clipS(string(text)), err2, clipS(string(ref)), clipS(ev.Join(doc))),
+						rtWitness{Format: "cte", Events: doc, Text: string(text)})
+				}
+			})
+		}
+	}
+
 	// textual idempotence over the C02 corpus
 	o := corpusOpts{structDepth: c.Pick(5, 6), floatStride: c.Pick(64, 8), latlong: 20, arrayFullMax: c.Pick(3, 5), comments: true, customText: true}
 	forEachCorpusDoc(c, o, func(doc []ev.E, cls string) {
